@@ -40,10 +40,13 @@ def extract_values(trace, harness_path):
             v = _val(st)
             if v is not None:
                 vals[lhs] = v
-        elif lhs in wanta:
-            v = _val(st)
-            if v is not None:
-                avals[lhs] = {'whole': v}
+        elif lhs.endswith('_nd') and lhs[:-3] in wanta:
+            v = st.get('value', {})
+            try:
+                els = v['members'][0]['value']['elements']
+                avals[lhs[:-3]] = {'whole': '{' + ', '.join(c_literal(e['value'].get('data', 0)) for e in els) + '}'}
+            except Exception:
+                pass
         else:
             m = re.match(r'(\w+)\[(\d+)[lLuU]*\]$', lhs)
             if m and m.group(1) in wanta:
